@@ -9,7 +9,8 @@ fixed lists (its constants are the BASELINE below); on a changed tree a new cons
 This only steers test generation for the correspondence run; no theorem depends on it."""
 import os, re
 
-ROOTS = ["/repo/redis", "/repo/examples"]
+_REPO = os.environ.get("VERIF_REPO", "/repo").rstrip("/")
+ROOTS = [_REPO + "/redis", _REPO + "/examples"]
 # integer constants of the pinned tree that are not sizes (bit widths, ports, unit conversions) or are already edges
 BASELINE = {10, 64, 1000, 1024, 6060, 6379, 512 * 1024 * 1024}
 LIT = r"(?:0[xX][0-9a-fA-F_]+|[0-9][0-9_]*)"
@@ -129,8 +130,45 @@ def new_strings(limit=12):
         return []
     return [v for v in mined_strings() if v not in base][:limit]
 
+# ---------------------------------------------------------------- durations
+UNIT = dict(Nanosecond=1e-9, Microsecond=1e-6, Millisecond=1e-3, Second=1.0, Minute=60.0, Hour=3600.0)
+DUR1 = re.compile(r"(?<![\w.])(%s)\s*\*\s*time\.(Nanosecond|Microsecond|Millisecond|Second|Minute|Hour)\b" % LIT)
+DUR2 = re.compile(r"\btime\.(Nanosecond|Microsecond|Millisecond|Second|Minute|Hour)\s*\*\s*(%s)(?![\w.])" % LIT)
+
+def mined_durations():
+    """literal durations (seconds) written in the non-test Go sources of the tree under test, e.g. 30 * time.Second; the pinned
+    tree has none (its only uses of time units convert command arguments), so every one found is new: a deadline, a timeout, a
+    keep-alive or a linger time somebody introduced"""
+    vals = set()
+    for root in ROOTS:
+        for dp, _, fs in os.walk(root):
+            for f in fs:
+                if not f.endswith(".go") or f.endswith("_test.go"):
+                    continue
+                try:
+                    src = _strip(open(os.path.join(dp, f), encoding="utf-8", errors="replace").read())
+                except OSError:
+                    continue
+                for m in DUR1.finditer(src):
+                    v = _value(m.group(1))
+                    if v:
+                        vals.add(v * UNIT[m.group(2)])
+                for m in DUR2.finditer(src):
+                    v = _value(m.group(2))
+                    if v:
+                        vals.add(v * UNIT[m.group(1)])
+    return sorted(vals)
+
+def idle_times(tier):
+    """how long an idle connection is left alone before it is used again: a little longer than every duration of the source
+    (up to 90 s); the thorough tier always includes 35 s (beyond the customary 30 s limits)"""
+    ts = sorted({int(d) + 2 for d in mined_durations() if 0.2 <= d <= 90})
+    if tier != "quick" and not any(t >= 35 for t in ts):
+        ts.append(35)
+    return ts[-2:]
+
 def summary():
-    return dict(mined_constants=mined(), new_constants=new_constants(), new_strings=new_strings())
+    return dict(mined_constants=mined(), new_constants=new_constants(), new_strings=new_strings(), durations=mined_durations())
 
 if __name__ == "__main__":
     print(summary())
